@@ -22,6 +22,100 @@ func init() {
 
 var extLists = [][]string{nil, {".go", ".md", ".go"}, {".go"}, {"Makefile"}, {"go", ".go"}, {".md", "Makefile", ".go"}, {""}, {"a"}, {".x.go", ".go"}, {".go", ".x.go"}, {"b.go"}}
 
+// randFSCases: the seeded stream shared by C06, C07 and C08 — random forests (hostile names when `hostile`),
+// extension lists, targets, and a pre-populated jail drawn from the forest's own paths (some nodes exist
+// already as a directory or a file of some size, some extras next to them); the model decides every case.
+func randFSCases(ctx *Ctx, rep *Report, n int, kind string, hostile bool) []Case {
+	classes := []string{"plain", "plain", "unicode", "quotes", "blanks"}
+	if hostile {
+		classes = append(classes, "path", "path")
+	}
+	safe := func(p string) bool {
+		for _, e := range strings.Split(p, "/") {
+			if e == "" || e == "." || e == ".." || strings.ContainsAny(e, "\x00") || len(e) > 200 {
+				return false
+			}
+		}
+		return true
+	}
+	var out []Case
+	for k := 0; len(out) < n && k < 20*n; k++ {
+		f := randForest(ctx.Rng, 1+ctx.Rng.Intn(9), classes, 3, rep.Dist)
+		if !representable(f, plainSpelling) || !distinctRoots(f) {
+			continue
+		}
+		doc := spell(f, plainSpelling)
+		c := newCase(kind)
+		c.Doc, c.DocText, c.Tree = hx(doc), docText(doc), encForest(f)
+		c.Exts = extLists[ctx.Rng.Intn(len(extLists))]
+		c.Target = []string{"t", "t", "sub/t", "missing/deeper/t"}[ctx.Rng.Intn(4)]
+		c.Note = "seeded"
+		paths, _ := nodePaths(f)
+		have := map[string]bool{}
+		addPre := func(path, kind string) {
+			// the ancestors are listed too: what the jail holds before the call is exactly c.Pre
+			els := strings.Split(path, "/")
+			for i := 1; i < len(els); i++ {
+				if a := strings.Join(els[:i], "/"); !have[a] {
+					have[a] = true
+					c.Pre = append(c.Pre, FSEntry{a, "d"})
+				}
+			}
+			if !have[path] {
+				have[path] = true
+				c.Pre = append(c.Pre, FSEntry{path, kind})
+			}
+		}
+		if c.Target != "missing/deeper/t" {
+			addPre(c.Target, "d")
+			for _, q := range paths {
+				if !safe(q) || (hostile && strings.Contains(q, "/")) {
+					continue
+				}
+				switch r := ctx.Rng.Intn(kindOdds(kind)); {
+				case r == 0 && !hostile:
+					addPre(c.Target+"/"+q, "d")
+				case r == 1 && !hostile:
+					addPre(c.Target+"/"+q, []string{"f0", "f1", "f7"}[ctx.Rng.Intn(3)])
+				case r == 2:
+					addPre(c.Target+"/"+q+"-extra", []string{"d", "f2"}[ctx.Rng.Intn(2)])
+				}
+			}
+		}
+		c.Pre = append(c.Pre, FSEntry{"sentinel", "d"}, FSEntry{"sentinel/keep.txt", "f3"})
+		switch kind {
+		case "mkdir":
+			c.Dry = ctx.Rng.Intn(6) == 0
+			if len(f) == 1 && ctx.Rng.Intn(3) == 0 {
+				c.FromRoot, c.Tree, c.Doc = true, f[0].Enc(), ""
+				c.Alias = ctx.Rng.Intn(2) == 0
+			}
+		case "verify":
+			c.Strict = ctx.Rng.Intn(2) == 0
+			if len(f) == 1 && ctx.Rng.Intn(3) == 0 {
+				c.FromRoot, c.Tree, c.Doc = true, f[0].Enc(), ""
+			}
+		}
+		out = append(out, c)
+	}
+	return out
+}
+
+func pick(b bool, x, y int) int {
+	if b {
+		return x
+	}
+	return y
+}
+
+// kindOdds: a verify case wants most of the tree present, a mkdir case little of it
+func kindOdds(kind string) int {
+	if kind == "verify" {
+		return 3
+	}
+	return 9
+}
+
 // nodePaths lists the relative paths (under the target) of all nodes of the forest.
 func nodePaths(f []*Tree) (paths []string, leaf map[string]bool) {
 	leaf = map[string]bool{}
@@ -188,6 +282,7 @@ func runC06(ctx *Ctx) *Report {
 	}
 	rep.Exhaustive = true
 	rep.Notes = append(rep.Notes, "every forest ≤ "+itoa(n)+" nodes with distinct roots over {a, b.go, Makefile} × rotating extension lists × target states")
+	cases = append(cases, randFSCases(ctx, rep, pick(ctx.Thorough, 6000, 500), "mkdir", false)...)
 	runCases(rep, cases, ctx.Workers, func(c Case) bool { return len(c.Doc) > 24 })
 	// many roots, one of them already there (as a file, as a directory): path-exists, nothing changes
 	{
@@ -419,6 +514,7 @@ func runC07(ctx *Ctx) *Report {
 			}
 		}
 	}
+	cases = append(cases, randFSCases(ctx, rep, pick(ctx.Thorough, 6000, 500), "mkdir", true)...)
 	var mcases []Case
 	for i, c := range cases {
 		if i%3 == 0 || ctx.Thorough {
@@ -599,6 +695,7 @@ func runC08(ctx *Ctx) *Report {
 			}
 		}
 	}
+	cases = append(cases, randFSCases(ctx, rep, pick(ctx.Thorough, 6000, 500), "verify", false)...)
 	parallel(cases, ctx.Workers, func(m *Model, c Case) {
 		diffs, realv := runCaseR(m, c)
 		rep.Record(c, caseKey(c), len(c.Pre) >= 3, diffs)
